@@ -81,7 +81,7 @@ type GenOpts struct {
 	MaxBiases    int
 	BiasLikeIds  bool // the arbitrary-string ids include names the biases generate themselves (__concealedCriterion__)
 	PlainIds     bool // ids c<n> / a<n> only (default: one request in eight has some arbitrary-string ids)
-	ValueScales  bool // one request in 16 has all values and declared bounds multiplied by 2^-40 or 2^30
+	ValueScales  bool // one request in 16 has all values and declared bounds multiplied by 2^-40, 2^30 or 2^40
 	BigTiers     bool // one request in 16 has 8-20 alternatives and up to 12 criteria, one in 1024 has 65-70 alternatives
 	MinAlts      int  // default 1
 	MaxAlts      int  // default 7
@@ -348,8 +348,11 @@ func (s *genState) genProblem(req M) {
 		// the same problem in another unit: every value and declared bound times 2^-40 or 2^30 (exact in binary)
 		f := 1 / float64(int64(1)<<40)
 		lbl := "valuesTiny"
-		if g.Bool() {
+		switch g.Int(0, 2) {
+		case 1:
 			f, lbl = float64(int64(1)<<30), "valuesLarge"
+		case 2:
+			f, lbl = float64(int64(1)<<40), "valuesHuge"
 		}
 		for _, a := range alts {
 			cm := a["criteria"].(M)
